@@ -229,6 +229,60 @@ def random_case(rng, keys, alpha, n):
     return ops
 
 
+KEYFNS = [('len', len), ('first', lambda k: k[:1]), ('last', lambda k: k[-1:]), ('const', lambda k: 0),
+          ('lower', lambda k: k.lower()), ('identity', lambda k: k)]
+
+
+def keyed_sorts(ctx, rng, thorough):
+    """sort(key=f, reverse=r) is list.sort on the key order (stable, reverse keeps the order of ties): the reference is
+    sorted() on the keys; content and length must not change.  (The code model has sort() / sort(reverse=True) only.)"""
+    import itertools
+    from hszinc.metadata import MetadataObject
+    from hszinc.sortabledict import SortableDict
+    pool = ['a', 'bb', 'b', 'ab', 'c', 'B', 'ba']
+    perms = []
+    for n in (2, 3, 4):
+        for sub in itertools.permutations(pool, n):
+            perms.append(list(sub))
+    if not thorough:
+        perms = perms[:40] + rng.sample(perms, 260)
+    for cls in (SortableDict, MetadataObject):
+        for order in perms:
+            for fname, f in KEYFNS:
+                for rev in (False, True):
+                    for how in ('kw', 'key-only', 'rev-only'):
+                        if how == 'key-only' and rev or how == 'rev-only' and fname != 'identity':
+                            continue
+                        d = cls()
+                        for i, k in enumerate(order):
+                            d[k] = i
+                        try:
+                            if how == 'kw':
+                                d.sort(key=f, reverse=rev)
+                            elif how == 'key-only':
+                                d.sort(key=f)
+                            else:
+                                d.sort(reverse=rev)
+                            got = ['ok', list(d.keys())]
+                        except Exception as e:  # noqa
+                            got = ['raise', type(e).__name__]
+                        want = ['ok', sorted(order, key=f, reverse=rev)]
+                        ctx.coverage['evaluations'] += 1
+                        ctx.count('keyed-sort:' + fname + (':reverse' if rev else ''))
+                        content = sorted((k, d[k]) for k in d) if got[0] == 'ok' else None
+                        if got != want or content != sorted((k, i) for i, k in enumerate(order)) or len(d) != len(order):
+                            ctx.violation('impl-counterexample',
+                                          '%s built by storing %r, then sort(%s): keys %r, list.sort gives %r (content %r)'
+                                          % (cls.__name__, order, {'kw': 'key=%s, reverse=%r' % (fname, rev), 'key-only': 'key=%s' % fname,
+                                                                   'rev-only': 'reverse=%r' % rev}[how], got, want, content),
+                                          {'class': cls.__name__, 'stores': order, 'key': fname, 'reverse': rev, 'call': how,
+                                           'python': 'd = %s(); [d.__setitem__(k, i) for i, k in enumerate(%r)]; d.sort(key=<%s>, reverse=%r); list(d.keys())'
+                                                     % (cls.__name__, order, fname, rev)})
+                            return False
+    ctx.coverage['nontrivial'] = ctx.coverage.get('nontrivial', 0)
+    return True
+
+
 def run(ctx):
     rng = random.Random(ctx.seed)
     thorough = ctx.tier == 'thorough' or ctx.escalate
@@ -236,7 +290,8 @@ def run(ctx):
     ctx.coverage['rule'] = ('from every ordered subset of the keys (built by plain stores) every single operation of the alphabet '
                             '(stores, positioned adds with every index/pos_key/after/replace combination, deletions, pop, pop_at, popitem, '
                             'sort, reverse, clear, append, extend, update, setdefault, refused values) and pairs of operations '
-                            '(all pairs in thorough, a seeded sample in quick), plus random sequences of length 30-300; '
+                            '(all pairs in thorough, a seeded sample in quick), plus random sequences of length 30-300; sort(key=f, reverse=r) for six key '
+                            'functions with ties against list.sort on the key order; '
                             'a case is non-trivial when it contains a positioned add, a removal, a reordering or a rejection; distinct by op list')
     corpus = [
         # the witness of fix 18c3ac8 (relocation relative to a key)
@@ -247,6 +302,8 @@ def run(ctx):
         [('set', 'a', 1), ('set', 'b', 2), ('add', 'a', 9, False, None, 'zz', True)],
     ]
     if not check_cases(ctx, corpus, seen):
+        return
+    if not keyed_sorts(ctx, rng, thorough):
         return
     for keys in ([KEYS3] if not thorough else [KEYS3, ['a', 'b', 'c', 'd']]):
         alpha = alphabet(keys)
@@ -275,6 +332,8 @@ def run(ctx):
 
 
 def replay(ctx, data):
+    if 'stores' in data:
+        return replay_keyed(ctx, data)
     ops = [tuple(tuple(x) if isinstance(x, list) and o[0] not in ('extend', 'update') else x for x in o) for o in data['ops']]
     fixed = []
     for o in data['ops']:
@@ -285,3 +344,19 @@ def replay(ctx, data):
     seen = set()
     check_cases(ctx, [fixed], seen)
     ctx.coverage['distinct_nontrivial'] = len(seen)
+
+
+def replay_keyed(ctx, data):
+    from hszinc.metadata import MetadataObject
+    from hszinc.sortabledict import SortableDict
+    cls = {'SortableDict': SortableDict, 'MetadataObject': MetadataObject}[data['class']]
+    f = dict(KEYFNS)[data['key']]
+    d = cls()
+    for i, k in enumerate(data['stores']):
+        d[k] = i
+    d.sort(key=f, reverse=data['reverse'])
+    got, want = list(d.keys()), sorted(data['stores'], key=f, reverse=data['reverse'])
+    ctx.coverage['evaluations'] += 1
+    if got != want:
+        ctx.violation('impl-counterexample', 'sort(key=%s, reverse=%r) after storing %r: keys %r, list.sort gives %r'
+                      % (data['key'], data['reverse'], data['stores'], got, want), data)
